@@ -95,6 +95,19 @@ func checkC05(c *Ctx) {
 				c.Fn(FuncName(fn))
 				key := fmt.Sprintf("%s:return[%s]", FuncName(fn), rd[ret])
 				ok, why := e.unknownWitness(b)
+				if !ok && (fn.Parent() != nil || (fn.Object() != nil && !fn.Object().Exported())) && staticCallersOnly(c.P, fn) {
+					// a helper or closure that only builds the unknown result: decided where it is called
+					all := true
+					for _, in := range c.P.CallGraph().Nodes[fn].In {
+						sb := in.Site.Block()
+						if w, _ := e.unknownWitness(sb); !w && !errorEvidence(sb) {
+							all = false
+						}
+					}
+					if all {
+						ok, why = true, "helper: every call site is reached only with an unknown operand"
+					}
+				}
 				excKey := key
 				if i := strings.LastIndex(excKey, "#"); i > 0 && strings.HasSuffix(excKey[:i], "]") {
 					excKey = excKey[:i]
@@ -130,6 +143,13 @@ func (e *knownEngine) unknownWitness(b *ssa.BasicBlock) (bool, string) {
 		}
 		cond, inv := stripBool(iff.Cond)
 		want := (d.Idom().Succs[0] == d) != inv
+		if ld, isLd := cond.(*ssa.UnOp); isLd && ld.Op == token.MUL {
+			// a flag that lives in a cell (it is shared with a closure)
+			if e.cellFlagUnderWitness(ld.X, want) {
+				return true, "under a flag that is set only when an operand is unknown"
+			}
+			continue
+		}
 		if _, isPhi := cond.(*ssa.Phi); !isPhi {
 			continue
 		}
@@ -156,9 +176,22 @@ func (e *knownEngine) flagUnderWitness(v ssa.Value, want bool, seen map[ssa.Valu
 				if (cn.Value.String() == "true") != want {
 					continue
 				}
+				// the edge itself comes from a test showing that the flag already had this value
+				// (the value form of `flag = flag || …` / `flag = flag && …`)
+				pb := x.Block().Preds[i]
+				if iff, ok := lastIf(pb); ok && pb.Succs[0] != pb.Succs[1] {
+					cond, inv := stripBool(iff.Cond)
+					if ph, ok := cond.(*ssa.Phi); ok && (seen[ph] || ph == x) && ((pb.Succs[0] == x.Block()) != inv) == want {
+						continue
+					}
+				}
 				if !e.assignmentJustified(x.Block().Preds[i], x, want, 0, map[*ssa.BasicBlock]bool{}) {
 					return false
 				}
+				continue
+			}
+			// a computed value: fine when it is assigned under a witness anyway
+			if e.assignmentJustified(x.Block().Preds[i], x, want, 0, map[*ssa.BasicBlock]bool{}) {
 				continue
 			}
 			if !e.flagUnderWitness(ed, want, seen) {
@@ -174,6 +207,10 @@ func (e *knownEngine) flagUnderWitness(v ssa.Value, want bool, seen map[ssa.Valu
 		// the flag is itself the outcome of a known-ness test
 		if cal := x.Call.StaticCallee(); cal != nil && isCtyValueMethod(cal) && (cal.Name() == "IsKnown" || cal.Name() == "IsWhollyKnown") {
 			return !want
+		}
+		// … or of an error test
+		if cal := x.Call.StaticCallee(); cal != nil && cal.Name() == "HasErrors" {
+			return want
 		}
 	}
 	return false
@@ -218,10 +255,18 @@ func (e *knownEngine) atomWitness(b *ssa.BasicBlock) (bool, string) {
 	return true, "some operand is unknown on every path"
 }
 
-// errorEvidence: block b is only reached after an error diagnostic has been recorded: it (or a
-// block above it on a single-predecessor chain) appends one, or it lies under the true edge of a
-// HasErrors() test.
+// errorEvidence: block b is only reached after an error diagnostic has been recorded: every path
+// into it passes a block that appends one (directly or through a helper that always does), or
+// the true edge of a HasErrors() test.
 func errorEvidence(b *ssa.BasicBlock) bool {
+	return errorEvidenceRec(b, 0, map[*ssa.BasicBlock]bool{})
+}
+
+func errorEvidenceRec(b *ssa.BasicBlock, depth int, seen map[*ssa.BasicBlock]bool) bool {
+	if depth > 10 || seen[b] {
+		return false
+	}
+	seen[b] = true
 	isErrAppend := func(ins ssa.Instruction) bool {
 		call, ok := ins.(*ssa.Call)
 		if !ok {
@@ -240,25 +285,28 @@ func errorEvidence(b *ssa.BasicBlock) bool {
 		}
 		return false
 	}
-	for d := b; d != nil; d = d.Idom() {
-		for _, ins := range d.Instrs {
-			if isErrAppend(ins) {
-				return true
-			}
+	for _, ins := range b.Instrs {
+		if isErrAppend(ins) {
+			return true
 		}
-		idom := d.Idom()
-		if idom == nil || len(d.Preds) != 1 {
-			break
-		}
-		if iff, ok := lastIf(idom); ok && idom.Succs[0] == d {
-			if call, ok := iff.Cond.(*ssa.Call); ok {
-				if cal := call.Call.StaticCallee(); cal != nil && cal.Name() == "HasErrors" {
-					return true
+	}
+	if len(b.Preds) == 0 {
+		return false
+	}
+	for _, p := range b.Preds {
+		if iff, ok := lastIf(p); ok && p.Succs[0] != p.Succs[1] {
+			cond, inv := stripBool(iff.Cond)
+			if call, ok := cond.(*ssa.Call); ok {
+				if cal := call.Call.StaticCallee(); cal != nil && cal.Name() == "HasErrors" && (p.Succs[0] == b) != inv {
+					continue
 				}
 			}
 		}
+		if !errorEvidenceRec(p, depth+1, seen) {
+			return false
+		}
 	}
-	return false
+	return true
 }
 
 // assignmentJustified: every path into block b (where the flag receives the truth value `want`)
@@ -290,6 +338,130 @@ func (e *knownEngine) assignmentJustified(b *ssa.BasicBlock, flag *ssa.Phi, want
 			}
 		}
 		if !e.assignmentJustified(p, flag, want, depth+1, seen) {
+			return false
+		}
+	}
+	return true
+}
+
+// cellFlagUnderWitness: the boolean cell (a local or a captured variable) is given the value want
+// only under an unknown-operand witness, after a recorded error, or when it already had it —
+// in the function that owns it and in every closure that captures it.
+func (e *knownEngine) cellFlagUnderWitness(addr ssa.Value, want bool) bool {
+	// the owning Alloc
+	var owner *ssa.Alloc
+	switch x := addr.(type) {
+	case *ssa.Alloc:
+		owner = x
+	case *ssa.FreeVar:
+		// walk out to the defining function
+		fn := x.Parent()
+		cur := ssa.Value(x)
+		for depth := 0; depth < 4 && owner == nil; depth++ {
+			fv, ok := cur.(*ssa.FreeVar)
+			if !ok {
+				break
+			}
+			idx := -1
+			for i, f := range fn.FreeVars {
+				if f == fv {
+					idx = i
+				}
+			}
+			parent := fn.Parent()
+			if parent == nil || idx < 0 {
+				return false
+			}
+			found := false
+			for _, b := range parent.Blocks {
+				for _, ins := range b.Instrs {
+					if mc, ok := ins.(*ssa.MakeClosure); ok && mc.Fn == fn && !found {
+						cur = mc.Bindings[idx]
+						found = true
+					}
+				}
+			}
+			if !found {
+				return false
+			}
+			if al, ok := cur.(*ssa.Alloc); ok {
+				owner = al
+			}
+			fn = parent
+		}
+	}
+	if owner == nil {
+		return false
+	}
+	// all views of the cell: the Alloc and the FreeVars bound to it (transitively)
+	views := map[ssa.Value]bool{owner: true}
+	var collect func(fn *ssa.Function)
+	collect = func(fn *ssa.Function) {
+		for _, b := range fn.Blocks {
+			for _, ins := range b.Instrs {
+				if mc, ok := ins.(*ssa.MakeClosure); ok {
+					cf := mc.Fn.(*ssa.Function)
+					for i, bnd := range mc.Bindings {
+						if views[bnd] {
+							views[cf.FreeVars[i]] = true
+						}
+					}
+					collect(cf)
+				}
+			}
+		}
+	}
+	collect(owner.Parent())
+	stores := 0
+	for v := range views {
+		refs := v.Referrers()
+		if refs == nil {
+			continue
+		}
+		for _, r := range *refs {
+			st, ok := r.(*ssa.Store)
+			if !ok || st.Addr != v {
+				continue
+			}
+			cn, ok := st.Val.(*ssa.Const)
+			if !ok || cn.Value == nil {
+				return false // computed value: not a simple flag
+			}
+			if (cn.Value.String() == "true") != want {
+				continue
+			}
+			stores++
+			if !e.cellAssignmentJustified(st.Block(), views, want, 0, map[*ssa.BasicBlock]bool{}) {
+				return false
+			}
+		}
+	}
+	return stores > 0
+}
+
+func (e *knownEngine) cellAssignmentJustified(b *ssa.BasicBlock, views map[ssa.Value]bool, want bool, depth int, seen map[*ssa.BasicBlock]bool) bool {
+	if depth > 8 || seen[b] {
+		return false
+	}
+	seen[b] = true
+	if ok, _ := e.atomWitness(b); ok {
+		return true
+	}
+	if errorEvidence(b) {
+		return true
+	}
+	if len(b.Preds) == 0 {
+		return false
+	}
+	for _, p := range b.Preds {
+		if iff, ok := lastIf(p); ok && p.Succs[0] != p.Succs[1] {
+			cond, inv := stripBool(iff.Cond)
+			onTrue := (p.Succs[0] == b) != inv
+			if ld, ok := cond.(*ssa.UnOp); ok && ld.Op == token.MUL && views[ld.X] && onTrue == want {
+				continue // the flag already had this value
+			}
+		}
+		if !e.cellAssignmentJustified(p, views, want, depth+1, seen) {
 			return false
 		}
 	}
